@@ -85,6 +85,8 @@ class Interp2(Interp):
             gi = self.find_class_attr(o.cls, '__getitem__')
             if isinstance(gi, types.FunctionType):
                 return self.call_value(gi, [o, i], {})
+        if isinstance(o, bytearray) and is_sym(i):
+            return self.select_concrete(list(o), i)
         if isinstance(o, ExcVal):
             raise OutOfReach('subscript of exception')
         if o is None or self.is_intlike(o):
